@@ -107,8 +107,8 @@ class SymMgr:
             tab = hcont.HDict()
             den = self.den
             for j in range(self.cache_entries):
-                if not c.choose(2, 'cache-entry'):
-                    continue
+                # (an entry on terminal operands is always possible and is
+                # irrelevant, so "fewer entries" needs no separate case)
                 g, u, v, r = (z3.Int(f'ce{j}{x}{self.tag}') for x in 'guvr')
                 c.assume(z3.And(self.present0(g), self.present0(u), self.present0(v),
                                 self.present0(r),
